@@ -19,14 +19,19 @@ Theorem qci_normal_band_full : forall (Phi : Q -> Q) n c l1 r1,
   let l0 := (Qfloor (l1 - (1 # 2)) + 1)%Z in
   let r := (Qceiling (r1 - (1 # 2)) + 1)%Z in
   let l := if (r <=? l0)%Z then (r - 1)%Z else l0 in
-  let biased := (l <? r - 1)%Z && Qle_bool c (band Phi l (r - 1)) && Qltb (band Phi l (r - 1)) (band Phi l r) in
-  let r' := if biased then (r - 1)%Z else r in
-  let full := (l <=? 0)%Z && (n + 1 <=? r')%Z in
-  let res := qci_normal (band Phi) n c l1 r1 in
   (inject_Z l0 - (1 # 2) <= l1 /\ l1 < inject_Z l0 + (1 # 2) /\ r1 <= inject_Z r - (1 # 2) /\ inject_Z r - (3 # 2) < r1) /\
   ((l <= l0)%Z /\ (l < r)%Z /\ (l1 < r1 -> l = l0) /\ (l1 <= r1 -> (l0 <= r)%Z)) /\
-  r_lo res = Z.max l 0 /\ r_hi res = Z.min r' (n + 1) /\ r_amb res = (biased && negb full) /\
-  r_conf res = (if full then 1 else band Phi l r').
+  exists k, (0 <= k)%Z /\
+    (forall j, (0 <= j < k)%Z -> band Phi (l - j) (r + j) < c /\ (0 < l - j \/ r + j < n + 1)%Z) /\
+    let lw := (l - k)%Z in
+    let rw := (r + k)%Z in
+    (c <= band Phi lw rw \/ (lw <= 0 /\ n + 1 <= rw)%Z) /\
+    let biased := (lw <? rw - 1)%Z && Qle_bool c (band Phi lw (rw - 1)) && Qltb (band Phi lw (rw - 1)) (band Phi lw rw) in
+    let r' := if biased then (rw - 1)%Z else rw in
+    let full := (lw <=? 0)%Z && (n + 1 <=? r')%Z in
+    let res := qci_normal (band Phi) n c l1 r1 in
+    r_lo res = Z.max lw 0 /\ r_hi res = Z.min r' (n + 1) /\ r_amb res = (biased && negb full) /\
+    r_conf res = (if full then 1 else band Phi lw r').
 Proof. intros. split; [apply band_rounding | split; [apply band_left | apply qci_normal_band]]. Qed.
 
 (* ---------- the lower mode at the ends of the q range ---------- *)
